@@ -18,6 +18,7 @@ EXPLANATION = (
     "agreement inside parse_short_arg): the allow_hyphen_values-positional shortcut fires on exactly the clusters the flag "
     "loop would reject, i.e. when ANY character is not a defined short. NOT decided: that inputs breaking no rule are never rejected, nor "
     "that each runtime rejection names a rule really broken (needs execution over inputs)."
+    ' R10.4d (shared with R8.3): what possible_subcommand may answer with.'
 )
 TRUSTED = ["rustc type-check + MIR construction (nightly)", "clapfacts driver", "lib/vset.py abstract interpreter",
            "derived PartialEq on fieldless enums compares discriminants"]
